@@ -94,7 +94,10 @@ ATTR = [
     (r"^diagnosis", ["C04"]),
     (r"^run-end-early$", ["C02", "C04", "C09"]),
     (r"^run-(end|exc)-", ["C04", "C10"]),
-    (r"^cancelled-run-ends-early$", ["C11"]),
+    (r"^cancelled-run-ends-early-parent-aborted-critical$", ["C11", "C05"]),
+    (r"^cancelled-run-ends-early-parent-aborted-timeout$", ["C11", "C08"]),
+    (r"^cancelled-run-ends-early-parent-aborted-success$", ["C11", "C09"]),
+    (r"^cancelled-run-ends-early", ["C11"]),
     (r"^predicates$", ["C14"]),
     (r"^no-progress-", ["C03"]),
     (r"^top-early$", ["C03", "C11"]),
